@@ -725,7 +725,7 @@ func (c *Client) receipts(ctx context.Context, url string, bm blockmap, start, l
 		b.Header.Hash.Write(resps[i].Result[0].BlockHash)
 		for j := range resps[i].Result {
 			tx := b.Tx(uint64(resps[i].Result[j].TxIdx))
-			tx.PrecompHash.Write(resps[i].Result[j].TxHash)
+			tx.SetHash(resps[i].Result[j].TxHash)
 			tx.Type.Write(byte(resps[i].Result[j].TxType))
 			tx.From.Write(resps[i].Result[j].TxFrom)
 			tx.To.Write(resps[i].Result[j].TxTo)
@@ -831,7 +831,7 @@ func (c *Client) logs(ctx context.Context, url string, filter *glf.Filter, bm bl
 		b.Lock()
 		b.Header.Hash.Write(logs[0].BlockHash)
 		tx := b.Tx(k.b)
-		tx.PrecompHash.Write(logs[0].TxHash)
+		tx.SetHash(logs[0].TxHash)
 		for i := range logs {
 			tx.Logs.Add(logs[i].Log)
 		}
@@ -896,7 +896,7 @@ func (c *Client) traces(ctx context.Context, url string, bm blockmap, start, lim
 		}
 		for k, traces := range tracesByTx {
 			tx := block.Tx(k.b)
-			tx.PrecompHash.Write(traces[0].TxHash)
+			tx.SetHash(traces[0].TxHash)
 			tx.TraceActions = make([]eth.TraceAction, len(traces))
 			for i := range traces {
 				ta := traces[i].Action
